@@ -318,7 +318,7 @@ func c08Run(c *Ctx) {
 						if t == -1 && entry == entDefinition && g0.Place[0] == 0 {
 							continue // N0 itself is the root definition: there is no entry reference
 						}
-						for _, mode := range []int{brkNoPointer, brkNoDoc, brkString, brkNumber, brkBool, brkArray, brkCaseName, brkUnsetMember, brkThroughBool} {
+						for _, mode := range []int{brkNoPointer, brkNoDoc, brkString, brkNumber, brkBool, brkArray, brkCaseName, brkUnsetMember, brkThroughBool, brkUnsetMap, brkUnsetSlice} {
 							g := g0.clone()
 							g.Breaks = map[int]int{t: mode}
 							if !mine(g, "") {
